@@ -147,7 +147,8 @@ def _hostile_call(self, real, arg, a, k):
     if h["neighbour"]:
         st = _NEIGH
         st["calls"] += 1
-        if st["calls"] % 3 != 0:
+        # (two calls out of three in the quick tier, one out of three in the thorough tier, whose workloads are 10-100 times larger)
+        if (st["calls"] % 3 != 0) if not HOSTILE.get("sparse") else (st["calls"] % 3 == 1):
             for n_ in _neighbours():
                 try:
                     real(n_, bytes(arg) if isinstance(arg, (bytes, bytearray, memoryview)) else arg, *a, **k)
